@@ -46,14 +46,18 @@ def cleanup():
         shutil.rmtree(d, ignore_errors=True)
 
 
-def the_file(n, mtime):
+SUFFIXES = ['.bin', '.bin', '.bin', '.txt', '.txt.gz', '.tgz', '.svgz', '.tar.bz2', '.xz', '.br', '.Z', '.html', '.json', '']      # (names whose suffix tells mimetypes about a content coding)
+
+
+def the_file(n, mtime, suffix='.bin'):
     d = workdir()
-    p = os.path.join(d, f'f{n}.bin')
+    name = f'f{n}{suffix}'
+    p = os.path.join(d, name)
     if not os.path.exists(p):
         with open(p, 'wb') as f:
             f.write(data_of(n))
     os.utime(p, (mtime, mtime))
-    return d, f'f{n}.bin'
+    return d, name
 
 
 def fmt_date(epoch, style):
@@ -62,6 +66,8 @@ def fmt_date(epoch, style):
     if style == 'length':
         style = 'rfc1123+length'
     base, _, suffix = style.partition('+') if not style.startswith('z') else (style.split('|')[0], '', style.partition('|')[2])
+    if base == 'rfc850' and time.gmtime(epoch).tm_year > 2068:
+        base = 'rfc1123'            # (a two-digit year cannot name a year that far ahead)
     if base == 'rfc1123':
         t = email.utils.formatdate(epoch, usegmt=True)
     elif base == 'rfc850':
@@ -226,8 +232,10 @@ def case_st(draw):
     mtime = T0 + draw(st.integers(0, 10**8)) + frac
     if draw(st.integers(0, 7)) == 0:
         mtime = draw(st.sampled_from([0, 0.5, 1, 1.999, 86400, 2**31 - 1, 2**31, 946684800]))      # boundary times: the epoch itself, the 32-bit edge
+    if draw(st.integers(0, 9)) == 0:
+        mtime = FUTURE + draw(st.integers(0, 10**6)) + frac          # a modification time ahead of the server clock (clock skew, restored backups)
     # the process may run in any (fixed-offset) time zone: HTTP dates are GMT whatever the zone
-    case = {'n': n, 'buf': buf, 'mtime': mtime, 'tz': draw(st.sampled_from(['UTC', 'UTC', 'XXX-3', 'YYY5', 'ZZZ-12', 'AAA9:30']))}
+    case = {'n': n, 'buf': buf, 'mtime': mtime, 'suffix': draw(st.sampled_from(SUFFIXES)), 'tz': draw(st.sampled_from(['UTC', 'UTC', 'XXX-3', 'YYY5', 'ZZZ-12', 'AAA9:30']))}
     if draw(st.integers(0, 9)) < 7:
         case['range'] = draw(range_st(n))
     if draw(st.integers(0, 9)) < 4:
@@ -241,6 +249,9 @@ def case_st(draw):
     return case
 
 
+FUTURE = 4102444800          # 2100-01-01: later than any clock this runs under
+
+
 def _set_tz(tz):
     import time
     os.environ['TZ'] = tz
@@ -250,7 +261,7 @@ def _set_tz(tz):
 def _serve(case, method):
     import ombott.static_stream as ss
     _set_tz(case.get('tz') or 'UTC')
-    root, name = the_file(case['n'], case['mtime'])
+    root, name = the_file(case['n'], case['mtime'], case.get('suffix') or '.bin')
     headers = {}
     if case.get('range'):
         headers['Range'] = case['range']
@@ -309,6 +320,14 @@ def run(ctx):
                 for sp in specs:
                     for buf in (1, 4):
                         ctx.guarded(check_case, {'n': n, 'buf': buf, 'mtime': T0 + 5, 'range': 'bytes=' + sp})
+            for suffix in SUFFIXES[3:]:
+                for rng in (None, 'bytes=2-5', 'bytes=-3', 'bytes=50-', 'bytes=0-'):
+                    ctx.guarded(check_case, {'n': 10, 'buf': 8, 'mtime': T0 + 5, 'range': rng, 'suffix': suffix})
+            for d in (-10**6, -1, 0, 1, 10**6):
+                for style in ('rfc1123', 'rfc850', 'asctime'):
+                    ep = FUTURE + d
+                    ctx.guarded(check_case, {'n': 5, 'buf': 8, 'mtime': FUTURE, 'ims': {'kind': 'grid', 'epoch': ep, 'text': fmt_date(ep, style), 'style': style}})
+                    ctx.guarded(check_case, {'n': 5, 'buf': 8, 'mtime': FUTURE, 'range': 'bytes=1-2', 'ims': {'kind': 'grid', 'epoch': ep, 'text': fmt_date(ep, style), 'style': style}})
             for n in (0, 10, 50):
                 for k in (1, 10, 63, 64, 65, 127, 128, 199, 200, 201, 255, 256, 257, 1000, 5000):
                     for first in ('2-5', '-3', f'{n}-', '0-'):
